@@ -9,6 +9,15 @@ CHECKS = {
  "C01": ("Hypothesis-generated edit histories (JSON op lists) against an incidence-integrity invariant checked after every op",
          "Exploration: thousands of generated edit histories over the full Hypergraph mutator alphabet, the two-way incidence / attribute-record invariant evaluated on every prefix whether the call returned or raised. Random search cannot show absence; the evidence reports the op-class histogram.",
          "Trusts the public views to report what is stored (cross-checked white-box against the internal dict key sets); label domain as in DESIGN 2.8.", "DESIGN.md#C01"),
+ "C02": ("Hypothesis-generated DiHypergraph edit histories against the directed (tail/out, head/in) integrity invariant after every op",
+         "Exploration: generated histories over the DiHypergraph mutator alphabet (all bulk formats, both directions, weak/strong removal, overlapping tail/head); directed two-way incidence, dangling IDs, attribute records and all directed degree/size stats checked on every prefix.",
+         "Same trust base as C01; tuple edge IDs are outside the domain (format ambiguity).", "DESIGN.md#C02"),
+ "C03": ("Hypothesis-generated SimplicialComplex histories against closure / no-duplicate / exact-coface-removal / max_order / has_simplex invariants after every op",
+         "Exploration: generated histories over the complex's own mutators with simplices up to 6 nodes; the closure check enumerates every subset of every simplex after every step, removal is compared with the exact coface set, has_simplex with brute-force membership.",
+         "Closure judged for subsets of size >= 2; inherited non-simplicial Hypergraph mutators are outside the statement.", "DESIGN.md#C03"),
+ "C05": ("Model-based testing: Hypothesis-generated histories applied step by step to xgi and to reference models transcribed from the docstrings (three classes), metamorphic relations for the degree-preserving moves",
+         "Exploration by refinement checking against an executable specification: every op of a generated history is applied to the implementation and to the model (parametric in fresh IDs, prefix semantics for bulk calls) and the observable snapshots are compared after every step, including after rejected calls and their exception types.",
+         "The models are my transcription of the documentation; inputs the documentation leaves contradictory are excluded by construction and counted (see assumptions in the evidence).", "DESIGN.md#C05"),
 }
 
 def main():
